@@ -6,6 +6,7 @@ package wallet
 
 import (
 	"bytes"
+	"fmt"
 	"time"
 
 	"github.com/btcsuite/btcd/chaincfg/chainhash"
@@ -242,6 +243,24 @@ func (w *Wallet) handleChainNotifications() {
 // the passed block.
 func (w *Wallet) connectBlock(dbtx walletdb.ReadWriteTx, b wtxmgr.BlockMeta) error {
 	addrmgrNs := dbtx.ReadWriteBucket(waddrmgrNamespaceKey)
+
+	// A block can only be connected on top of, or in place of, the block
+	// we're currently synced to. The address manager merely checks that a
+	// hash is stored for the previous height, which a stale hash left
+	// behind by a rollback satisfies. Such a block must not be able to
+	// move the synced-to height past heights whose hashes were never
+	// refreshed, e.g. when it arrives while we're still rescanning.
+	syncedTo := w.Manager.SyncedTo()
+	if b.Height > syncedTo.Height+1 {
+		str := fmt.Sprintf("block %v at height %d does not connect "+
+			"to the synced-to height %d", b.Hash, b.Height,
+			syncedTo.Height)
+
+		return waddrmgr.ManagerError{
+			ErrorCode:   waddrmgr.ErrBlockNotFound,
+			Description: str,
+		}
+	}
 
 	bs := waddrmgr.BlockStamp{
 		Height:    b.Height,
